@@ -38,7 +38,7 @@ class Result:
 class Leg:
     def __init__(self, name, evaluate, rule, strategy=None, enum=None, corpus=None, n_quick=0, n_thorough=0,
                  shards=None, valid=None, shrink=None, floor=0.0, target=False, exhaustive=False, scope=None,
-                 case_timeout=120, stateful=None):
+                 case_timeout=60, stateful=None):
         self.name = name
         self.evaluate = evaluate          # case -> Result
         self.rule = rule                  # text: how cases are made, what makes one non-trivial
@@ -100,6 +100,7 @@ def load_known(prop_id):
 
 class Recorder:
     SAMPLE_CAP = 6
+    MAX_TIMEOUTS = 3
 
     def __init__(self, leg, known):
         self.leg = leg
@@ -113,17 +114,30 @@ class Recorder:
         self.known_hits = collections.Counter()
         self.known_examples = {}
         self.inconclusive = collections.Counter()
+        self.timeouts = collections.Counter()
 
     def run(self, case):
         leg = self.leg
-        signal.signal(signal.SIGALRM, _alarm)
-        signal.setitimer(signal.ITIMER_REAL, leg.case_timeout)
-        try:
-            res = leg.evaluate(case)
-        except CaseTimeout:
-            res = Result(inconclusive="timeout")
-        finally:
-            signal.setitimer(signal.ITIMER_REAL, 0)
+        # Per-case budget in *CPU* seconds of this process (ITIMER_PROF), so that machine load cannot turn a slow case
+        # into a timeout.  A timeout is never a verdict.  After MAX_TIMEOUTS timeouts for one algorithm in one shard the
+        # remaining cases of that algorithm are skipped (and counted), which keeps a check bounded when a change makes
+        # an algorithm loop forever.
+        key = case.get("alg", "-") if isinstance(case, dict) else "-"
+        if self.timeouts[key] >= self.MAX_TIMEOUTS:
+            res = Result(inconclusive="skipped-after-timeouts")
+        else:
+            signal.signal(signal.SIGPROF, _alarm)
+            try:
+                signal.setitimer(signal.ITIMER_PROF, leg.case_timeout, 5.0)
+                res = leg.evaluate(case)
+            except CaseTimeout:
+                res = Result(inconclusive="timeout")
+                self.timeouts[key] += 1
+            finally:
+                try:
+                    signal.setitimer(signal.ITIMER_PROF, 0)
+                except CaseTimeout:
+                    signal.setitimer(signal.ITIMER_PROF, 0)
         self.evals += 1
         self.executions += res.subcases
         for lab in res.labels:
@@ -266,12 +280,15 @@ def minimise(leg, case, bucket, budget_s=25.0):
             try:
                 if not leg.valid(cand):
                     continue
-                signal.signal(signal.SIGALRM, _alarm)
-                signal.setitimer(signal.ITIMER_REAL, min(leg.case_timeout, 20))
+                signal.signal(signal.SIGPROF, _alarm)
                 try:
+                    signal.setitimer(signal.ITIMER_PROF, min(leg.case_timeout, 20), 5.0)
                     res = leg.evaluate(cand)
                 finally:
-                    signal.setitimer(signal.ITIMER_REAL, 0)
+                    try:
+                        signal.setitimer(signal.ITIMER_PROF, 0)
+                    except CaseTimeout:
+                        signal.setitimer(signal.ITIMER_PROF, 0)
             except (CaseTimeout, Exception):
                 continue
             hit = [f for f in res.failures if f.bucket == bucket]
@@ -429,6 +446,10 @@ def run_check(prop_id, legs, level="exploration", tier=None, assumptions=None, e
         print(f"VIOLATION property={prop_id} replay={path}", flush=True)
         print(f"  bucket={bucket} case={canon(small)[:400]}", flush=True)
         print(f"  detail={json.dumps(detail, default=str)[:600]}", flush=True)
+    if inconclusive.get("timeout") or inconclusive.get("skipped-after-timeouts"):
+        print(f"NOTE property={prop_id}: {inconclusive.get('timeout', 0)} case(s) exceeded their CPU budget and "
+              f"{inconclusive.get('skipped-after-timeouts', 0)} were skipped after repeated timeouts of the same algorithm; "
+              f"these are inconclusive, not verdicts", flush=True)
     print(f"{prop_id} tier={tier} seed={env.seed()} evaluations={evaluations} executions={coverage['executions']} "
           f"distinct_nontrivial={len(all_nontrivial)} inconclusive={sum(inconclusive.values())} "
           f"violations={len(violations)} wall={evidence['wall_s']}s", flush=True)
